@@ -163,7 +163,7 @@ fn evaluate_against_data_input<'r>(
     mut write_output: &mut Writer,
 ) -> (res: Result<Status>)
     ensures
-        res is Ok ==> res->Ok_0 == overall_spec(*rules, *extra_data, data_files@),
+        res is Ok ==> (res->Ok_0 == Status::FAIL) == some_fail(*rules, *extra_data, data_files@, data_files@.len() as int),
 { unimplemented!() }
 // ---- canary canary:callee:evaluate_against_data_input
 fn evaluate_against_data_input__canary<'r>(
